@@ -21,6 +21,13 @@ Decided:
          named flag, or truncation); only the value passed to add() is stored; nobody outside Reservoir's own
          methods writes _data/_cap/_total_count; iteration is over _data (return iter(..) or generator form);
          the subclass delegates to the base add exactly once (super() or explicit base call).
+  R19.d  instance custody: the object whose route_hits the stats endpoints read (and reset) is an *element* of
+         ``_application.middlewares`` picked by isinstance(.., StatsMiddleware) -- never a copy or a fresh instance; a bound
+         route's own middleware list is merge(<route level>, <that application's list>) with the application being the one
+         later injected as ``_application``; the merge result holds every element of the application-level argument by
+         identity (it starts as a copy of it and no element is replaced or removed afterwards -- Middleware.__eq__ compares
+         by type, so ``x in merged`` says nothing about identity); the chain is compiled from that list.  Otherwise a route
+         carrying its own StatsMiddleware() counts on an instance nobody reads.
 Each group runs in isolation (a gap in one does not hide violations of the others).
 Declined: sampling statistics (uniformity); totals per status over histories.
 """
@@ -31,6 +38,7 @@ from .. import diffcon, effects
 from ..cfg import expand_conds
 from .common import (cfg_of, fkey, conds, has_cond, cond_texts, stmts_of, walk_body, call_tail, call_name,
                      returns_of, handler_reraises_always, stmt_of)
+from ..astutil import assigned_value
 from .c15 import next_derived, is_next_call, _guarded
 
 STATS = 'clastic.middleware.stats'
@@ -55,17 +63,20 @@ def run(rep):
     repo = rep.repo
     st = repo.mod(STATS)
     rep.decide('R19.a exactly one recorded hit per call, keyed by status/exception; R19.b report-before-reset; '
-               'R19.c bounded writes on the sample store')
+               'R19.c bounded writes on the sample store; R19.d the instance the report reads/resets is the one the routes run '
+               '(element of _application.middlewares; the merge keeps the application-level instances by identity)')
+    rep.assume("Middleware.__eq__ compares by type (clastic.middleware.core): membership in a middleware list says nothing about identity")
     rep.decline('uniformity of sampling; totals per status over request histories')
     rep.assume('random.random() returns a float in [0, 1) so fast_randint(0, n) is a non-negative int')
     rep.rule('R19.a', 'the hit is recorded exactly once per call on normal and exceptional paths, under [_route][status]')
     rep.rule('R19.b', 'report is computed before reset; reset rebinds to a fresh mapping; count is total_count')
     rep.rule('R19.c', 'Reservoir: count once per add; appends and indexed stores entailed in-bounds; resize keeps len<=cap')
     # every group runs even when another one cannot be analysed (its gap is reported as ANALYSIS-ERROR at the end)
+    rep.rule('R19.d', 'the StatsMiddleware instance the report reads / resets is the instance the routes run')
     for group in (_request_records_once, _report_before_reset, _reported_count, _reservoir_add, _reservoir_resize,
-                  _reservoir_init, _reservoir_rest):
+                  _reservoir_init, _reservoir_rest, _report_reads_running_instance):
         _guarded(rep, group, rep, repo, st)
-    for rule, n in (('R19.a', 8), ('R19.b', 6), ('R19.c', 12)):
+    for rule, n in (('R19.a', 8), ('R19.b', 6), ('R19.c', 12), ('R19.d', 4)):
         rep.guard(rep.floor, rule, n)
 
 
@@ -434,6 +445,249 @@ def _reservoir_rest(rep, repo, st):
     ok, why = _exactly_once(cfg_s, cfg_s.nodes_of_all(sup), [cfg_s.entry], [cfg_s.exit])
     rep.check('R19.c', fkey(sub, 'super().add'), ok, 'RouteStatReservoir.add delegates to Reservoir.add exactly once' if ok else
               'RouteStatReservoir.add: ' + why, st, sub.node)
+
+
+# ---- R19.d ---------------------------------------------------------------------------------------------------------
+APP_PARAM = '_application'      # the injectable (route.py builtins) naming the application a request was dispatched by
+ADDERS = {'append', 'extend', 'insert', 'sort', 'reverse', 'index', 'count', 'copy'}       # list methods that keep every element
+DROPPERS = {'remove', 'pop', 'clear', '__setitem__', '__delitem__'}
+
+
+def _selection(e):
+    """``e`` selects an element out of an iterable: ``[x for x in IT if ..][k]`` / ``next(x for x in IT if ..)`` /
+    ``list(filter(..))`` is not followed.  -> (comprehension node) or None."""
+    if isinstance(e, ast.Subscript) and isinstance(e.value, (ast.ListComp, ast.GeneratorExp)) and not isinstance(e.slice, ast.Slice):
+        return e.value
+    if isinstance(e, ast.Call) and call_name(e) == 'next' and e.args and isinstance(e.args[0], (ast.GeneratorExp, ast.ListComp)):
+        return e.args[0]
+    if isinstance(e, ast.Call) and call_name(e) in ('first',) and e.args and isinstance(e.args[0], (ast.GeneratorExp, ast.ListComp)):
+        return e.args[0]
+    return None
+
+
+def _judge_instance_source(repo, fi, L, expr, anchor, depth=0):
+    """Where does the stats middleware object ``expr`` (evaluated by statement ``anchor`` of ``fi``) come from?
+    -> (True, text) it is an element of <APP_PARAM>.middlewares chosen by isinstance(.., StatsMiddleware);
+       (False, why) it is something else for sure;  raises AnalysisError when it cannot be followed."""
+    e = L.resolve(expr, anchor)
+    for c in ast.walk(e):
+        if isinstance(c, ast.Call) and (call_name(c) in ('StatsMiddleware', 'copy', 'deepcopy') or call_tail(c) in ('copy', 'deepcopy', '__class__')
+                                        or (isinstance(c.func, ast.Call) and call_name(c.func) == 'type')):
+            return False, 'it is a newly made object (%s), not the instance installed on the application' % short(c)
+    comp = _selection(e)
+    if comp is not None:
+        if len(comp.generators) != 1 or not isinstance(comp.generators[0].target, ast.Name):
+            raise AnalysisError('%s: selection %s not understood' % (fi.key, short(e)))
+        g = comp.generators[0]
+        tgt = g.target.id
+        if not (isinstance(comp.elt, ast.Name) and comp.elt.id == tgt):
+            return False, 'the selected value %s is not the list element itself' % short(comp.elt)
+        if not any(isinstance(c, ast.Call) and call_name(c) == 'isinstance' and len(c.args) == 2 and norm(c.args[0]) == tgt
+                   and 'StatsMiddleware' in norm(c.args[1]) for i in g.ifs for c in ast.walk(i)):
+            return False, 'the element is not chosen by isinstance(%s, StatsMiddleware)' % tgt
+        return _judge_list(fi, L, g.iter, anchor)
+    if isinstance(e, ast.Name) and len(L.defs.get(e.id, [])) > 1 and depth < 3:
+        # one binding per branch / handler (``except IndexError: mw = <fallback>``): each of them is what may be read
+        out = [_judge_instance_source(repo, fi, L, L._value[(id(b), e.id)], b, depth + 1) for b in L.defs[e.id]]
+        bad = [o for o in out if not o[0]]
+        return bad[0] if bad else out[0]
+    if isinstance(e, ast.Name):
+        # a loop variable:  for mw in <list>: if isinstance(mw, StatsMiddleware): return mw
+        loops = [s_ for s_ in stmts_of(fi.node) if isinstance(s_, ast.For) and isinstance(s_.target, ast.Name) and s_.target.id == e.id]
+        if len(loops) == 1 and L.counts.get(e.id) == 1:
+            cs = conds(fi, anchor)
+            if not any(p is True and isinstance(t, ast.Call) and call_name(t) == 'isinstance' and len(t.args) == 2 and norm(t.args[0]) == e.id
+                       and 'StatsMiddleware' in norm(t.args[1]) for t, p in cs):
+                return False, 'the element is not chosen by isinstance(%s, StatsMiddleware)' % e.id
+            return _judge_list(fi, L, loops[0].iter, loops[0])
+    if isinstance(e, ast.Call) and depth < 3:
+        callee = _callee(repo, fi, e)
+        if callee is not None and len(e.args) == len(callee.params()) and not e.keywords:
+            # a helper that was not inlined: every value it returns, its parameters read as the arguments given
+            ps = callee.params()
+            if [norm(a) for a in e.args] != ps:
+                raise AnalysisError('%s: %s renames its arguments; not followed' % (fi.key, short(e)))
+            Lc = diffcon.Locals(callee.node, cfg_of(callee))
+            rets = [r for r in returns_of(callee) if r.value is not None]
+            if not rets:
+                raise AnalysisError('%s returns nothing' % callee.key)
+            out = [_judge_instance_source(repo, callee, Lc, r.value, r, depth + 1) for r in rets]
+            bad = [o for o in out if not o[0]]
+            return bad[0] if bad else out[0]
+    raise AnalysisError('%s: cannot tell where the stats middleware object %s comes from' % (fi.key, short(e)))
+
+
+def _judge_list(fi, L, it, anchor):
+    t = norm(L.resolve(it, anchor))
+    if t in ('%s.middlewares' % APP_PARAM, 'list(%s.middlewares)' % APP_PARAM, 'tuple(%s.middlewares)' % APP_PARAM):
+        if APP_PARAM not in fi.params():
+            raise AnalysisError('%s: %s is not a parameter' % (fi.key, APP_PARAM))
+        return True, 'an element of %s.middlewares chosen by isinstance(.., StatsMiddleware)' % APP_PARAM
+    raise AnalysisError('%s: the stats middleware is looked up in %s, not in %s.middlewares; cannot relate that list to the routes'
+                        % (fi.key, t, APP_PARAM))
+
+
+def _report_reads_running_instance(rep, repo, st):
+    # (1) the report / reset side: whose route_hits, whose reset()
+    sites = []
+    for fi in st.functions.values():
+        if fi.cls is not None or fi.mod is not st:
+            continue
+        for n in walk_body(fi.node):
+            if isinstance(n, ast.Attribute) and isinstance(n.ctx, ast.Load) and n.attr == 'route_hits':
+                sites.append((fi, n.value, n, 'reads %s.route_hits' % norm(n.value)))
+            elif isinstance(n, ast.Call) and isinstance(n.func, ast.Attribute) and n.func.attr == 'reset' and not n.args:
+                sites.append((fi, n.func.value, n, 'calls %s.reset()' % norm(n.func.value)))
+    if len(sites) < 2:
+        raise AnalysisError('stats endpoints: expected a read of <mw>.route_hits and a <mw>.reset() call, found %d' % len(sites))
+    for fi, recv, node, what in sites:
+        anchor = stmt_of(st, node)
+        L = diffcon.Locals(fi.node, cfg_of(fi))
+        ok, why = _judge_instance_source(repo, fi, L, recv, anchor)
+        rep.check('R19.d', fkey(fi, what), ok, '%s: %s' % (what, why) if ok else
+                  '%s, but %s: the counters shown / reset are not the ones the routes of the application add to' % (what, why), st, node)
+    # (2) a bound route's list: merge(<route level>, <application level>), the application being the one injected later
+    route = repo.mod('clastic.route')
+    core = repo.mod('clastic.middleware.core')
+    bi = route.func('BoundRoute.__init__')
+    Lb = diffcon.Locals(bi.node, cfg_of(bi))
+    calls = [c for c in walk_body(bi.node) if isinstance(c, ast.Call) and call_name(c) == 'merge_middlewares']
+    if len(calls) != 1 or calls[0].keywords or any(isinstance(a, ast.Starred) for a in calls[0].args):
+        raise AnalysisError('BoundRoute.__init__: expected one plain merge_middlewares(...) call')
+    call = calls[0]
+    params = [p for p in bi.params() if p != 'self']
+
+    def level_of(e):
+        r = Lb.resolve(e, stmt_of(route, call))
+        if isinstance(r, ast.Call) and call_name(r) in ('list', 'tuple') and len(r.args) == 1:
+            r = r.args[0]
+        if isinstance(r, ast.Call) and call_name(r) == 'getattr' and len(r.args) == 3 and isinstance(r.args[1], ast.Constant):
+            r = ast.Attribute(value=r.args[0], attr=r.args[1].value, ctx=ast.Load())
+        if isinstance(r, ast.Attribute) and r.attr == 'middlewares' and isinstance(r.value, ast.Name) and r.value.id in params:
+            return r.value.id
+        return None
+    levels = [level_of(a) for a in call.args]
+    # which parameter of BoundRoute.__init__ is the application handed out as ``_application``: the last of self.bound_apps
+    apps = []
+    for s in stmts_of(bi.node):
+        for t, v in _assign_pairs(s):
+            if norm(t) == 'self.bound_apps':
+                v = Lb.resolve(v, s)
+                last = v.right if isinstance(v, ast.BinOp) and isinstance(v.op, ast.Add) else v
+                if isinstance(last, (ast.List, ast.Tuple)) and last.elts and isinstance(last.elts[-1], ast.Name):
+                    apps.append(last.elts[-1].id)
+    provider = [n for f in route.functions.values() for n in ast.walk(f.node) if isinstance(n, ast.Dict)
+                for k, v in zip(n.keys, n.values) if isinstance(k, ast.Constant) and k.value == APP_PARAM and norm(v) == 'self.bound_apps[-1]']
+    if len(apps) != 1 or not provider:
+        raise AnalysisError("clastic.route: cannot see that '%s' is the application a route was bound to last (self.bound_apps[-1])" % APP_PARAM)
+    app_p = apps[0]
+    if app_p not in levels or len([l for l in levels if l is not None]) != len(levels):
+        raise AnalysisError('BoundRoute.__init__: merge_middlewares arguments %s are not the route-level and the application-level list'
+                            % [short(a) for a in call.args])
+    mm = core.func('merge_middlewares')
+    kept = mm.params()[levels.index(app_p)]
+    # (3) the merge keeps every element of that argument, by identity
+    ok, why, node = _merge_keeps(mm, kept)
+    rep.check('R19.d', fkey(mm, 'keeps the instances of %s' % kept), ok,
+              "every middleware instance of the application-level list ('%s') is in the merged list itself: %s" % (kept, why) if ok else
+              "merge_middlewares does not keep the application's own instances ('%s'): %s.  Middleware equality is by type, so a route (or an "
+              "embedded application) that lists its own StatsMiddleware() then runs that private instance, while the stats endpoints read the one "
+              "in %s.middlewares: its requests are counted where nobody looks" % (kept, why, APP_PARAM), core, node)
+    # (4) the chain is compiled from that very list
+    chains = [c for c in walk_body(bi.node) if isinstance(c, ast.Call) and call_name(c) == 'make_middleware_chain' and c.args]
+    if len(chains) != 1:
+        raise AnalysisError('BoundRoute.__init__: expected one make_middleware_chain(...) call')
+    def holds_merged(e, carriers):
+        """``e`` is the merge result or a list/tuple copy of it (same elements), possibly under a name that carries it"""
+        while (isinstance(e, ast.Call) and call_name(e) in ('list', 'tuple') and len(e.args) == 1 and not e.keywords) or \
+                (isinstance(e, ast.Subscript) and isinstance(e.slice, ast.Slice) and e.slice.lower is None and e.slice.upper is None and e.slice.step is None):
+            e = e.args[0] if isinstance(e, ast.Call) else e.value
+        return e is call or (isinstance(e, ast.Call) and norm(e) == norm(call)) or (isinstance(e, (ast.Name, ast.Attribute)) and norm(e) in carriers)
+    tgt = set()
+    pairs = [(t, v) for s in stmts_of(bi.node) for t, v in _assign_pairs(s)]
+    grown = True
+    while grown:
+        grown = False
+        for t, v in pairs:
+            if norm(t) not in tgt and holds_merged(v, tgt):
+                # (a carrier bound more than once is not followed)
+                if len([1 for t2, _ in pairs if norm(t2) == norm(t)]) == 1:
+                    tgt.add(norm(t))
+                    grown = True
+    got = norm(chains[0].args[0])
+    ok = holds_merged(chains[0].args[0], tgt)
+    tgt = sorted(tgt)
+    if not ok:
+        one_level = [norm(Lb.resolve(a, stmt_of(route, call))) for a in call.args]
+        if norm(Lb.resolve(chains[0].args[0], stmt_of(route, chains[0]))) not in one_level:
+            raise AnalysisError('BoundRoute.__init__: cannot relate the list the chain is compiled from (%s) to the merged list %s' % (got, tgt))
+    rep.check('R19.d', fkey(bi, 'chain from merged list'), ok, 'the request chain is compiled from the merged list (%s)' % got if ok else
+              'the request chain is compiled from %s, not from the merged middleware list %s' % (got, tgt), route, chains[0])
+
+
+def _merge_keeps(mm, kept):
+    """(ok, text, node): does the list ``mm`` returns contain every element of parameter ``kept``, by identity?"""
+    rets = [r for r in returns_of(mm) if r.value is not None]
+    if not rets:
+        raise AnalysisError('merge_middlewares returns nothing')
+
+    def copy_of(e, depth=0):
+        """``e`` denotes ``kept`` or a list holding all its elements"""
+        if depth > 4:
+            return False
+        if isinstance(e, ast.Name):
+            if e.id == kept:
+                vals = assigned_value(mm.node, kept)
+                return all(idx is None and isinstance(v, ast.expr) and copy_of_rebind(v) for _, v, idx in vals)
+            vals = assigned_value(mm.node, e.id)
+            return bool(vals) and all(idx is None and isinstance(v, ast.expr) and copy_of(v, depth + 1) for _, v, idx in vals)
+        if isinstance(e, ast.Call) and call_name(e) in ('list', 'tuple') and len(e.args) == 1 and not e.keywords:
+            return copy_of(e.args[0], depth + 1)
+        if isinstance(e, ast.Subscript) and isinstance(e.slice, ast.Slice) and e.slice.lower is None and e.slice.upper is None and e.slice.step is None:
+            return copy_of(e.value, depth + 1)
+        if isinstance(e, (ast.List, ast.Tuple)):
+            return any(isinstance(x, ast.Starred) and copy_of(x.value, depth + 1) for x in e.elts)
+        if isinstance(e, ast.BinOp) and isinstance(e.op, ast.Add):
+            return copy_of(e.left, depth + 1) or copy_of(e.right, depth + 1)
+        if isinstance(e, ast.ListComp) and len(e.generators) == 1 and not e.generators[0].ifs and isinstance(e.generators[0].target, ast.Name) \
+                and isinstance(e.elt, ast.Name) and e.elt.id == e.generators[0].target.id:
+            return copy_of(e.generators[0].iter, depth + 1)
+        return False
+
+    def copy_of_rebind(v):
+        # ``new = list(new)``
+        return isinstance(v, ast.Call) and call_name(v) in ('list', 'tuple') and len(v.args) == 1 and norm(v.args[0]) == kept
+    names = set()
+    for r in rets:
+        if isinstance(r.value, ast.Name):
+            names.add(r.value.id)
+        elif not copy_of(r.value):
+            raise AnalysisError('merge_middlewares: returned value %s not understood' % short(r.value))
+    for M in sorted(names):
+        vals = [x for x in assigned_value(mm.node, M) if not (isinstance(x[1], ast.AugAssign) and isinstance(x[1].op, ast.Add))]   # ``M += [..]`` only adds
+        plain = [(s_, v) for s_, v, idx in vals if idx is None and isinstance(v, ast.expr)]
+        if len(plain) != len(vals) or not plain:
+            raise AnalysisError('merge_middlewares: bindings of %s not understood' % M)
+        for s_, v in plain:
+            if not copy_of(v):
+                if isinstance(v, (ast.ListComp, ast.GeneratorExp)) and len(v.generators) == 1 and copy_of(v.generators[0].iter) and \
+                        (v.generators[0].ifs or norm(v.elt) != norm(v.generators[0].target)):
+                    return False, "the merged list is a filtered / rebuilt version of '%s' (%s)" % (kept, short(v)), s_
+                if any(isinstance(x, ast.Name) and x.id == kept for x in ast.walk(v)):
+                    raise AnalysisError('merge_middlewares: cannot tell whether %s keeps every element of %s' % (short(s_), kept))
+                return False, "the merged list is built as %s, not from a copy of '%s'" % (short(v), kept), s_
+        for n in walk_body(mm.node):
+            if isinstance(n, ast.Subscript) and isinstance(n.ctx, (ast.Store, ast.Del)) and norm(n.value) == M:
+                s_ = stmt_of(mm.mod, n)
+                if isinstance(n.ctx, ast.Store) and isinstance(s_, ast.Assign) and len(s_.targets) == 1 and norm(s_.value) == norm(n):
+                    continue
+                return False, 'an element of the merged list is %s (%s)' % ('replaced' if isinstance(n.ctx, ast.Store) else 'deleted', short(s_)), s_
+            if isinstance(n, ast.Call) and isinstance(n.func, ast.Attribute) and norm(n.func.value) == M:
+                if n.func.attr in DROPPERS:
+                    return False, 'elements are taken out of the merged list (%s)' % short(n), n
+                if n.func.attr not in ADDERS:
+                    raise AnalysisError('merge_middlewares: effect of %s on the merged list unknown' % short(n))
+    return True, 'the result starts as a copy of it; afterwards elements are only added', None
 
 
 def _uniq(xs):
